@@ -39,11 +39,30 @@ def load_known():
     return json.load(open(p)).get("findings", [])
 
 
-def run(prop, tier="quick", seed=0):
+def load_baseline():
+    p = os.path.join(VERIF, "baseline.json")
+    return json.load(open(p)) if os.path.exists(p) else {}
+
+
+def _sidecar_digest(sidecars):
+    import hashlib
+    import inspect
+    h = hashlib.sha256()
+    for m in sidecars:
+        try:
+            h.update(inspect.getsource(m).encode())
+        except OSError:
+            h.update(m.__name__.encode())
+    return h.hexdigest()[:12]
+
+
+def run(prop, tier="quick", seed=0, write_baseline=False):
     t0 = time.time()
     mod = importlib.import_module("props." + prop)
     uni = Universe()
     sidecars = [importlib.import_module(m) for m in mod.SIDECARS]
+    sdig = _sidecar_digest(sidecars)
+    baseline = load_baseline().get(prop, {})
     for m in sidecars:
         uni.load_sidecar(m)
     undecided = []
@@ -61,7 +80,11 @@ def run(prop, tier="quick", seed=0):
             obls += got
             functions.append({"function": key, "module": con.get("module") or uni.modules.get(key.rpartition(".")[0]),
                               "source_hash": extract.src_hash(ex.fn), "obligations": len(got)})
-        except OutOfSubset as e:
+        except (OutOfSubset, IndexError, KeyError, AttributeError, TypeError, ValueError, AssertionError) as e:
+            if not isinstance(e, OutOfSubset):
+                # the engine met a construct it does not model (e.g. a builtin called with an arity the sidecar's code
+                # never used): treated exactly like out-of-subset code, never as a verdict
+                e = OutOfSubset("engine cannot model this code (%s: %s)" % (type(e).__name__, e))
             # the code (or the sidecar w.r.t. changed code) left the subset: not a verdict by itself.
             # Ask the refuter: a failing input on the real function is a violation; otherwise undecided.
             wit = None
@@ -103,6 +126,20 @@ def run(prop, tier="quick", seed=0):
             extras = list(mod.extra(uni, tier, seed))
         except extract.Missing as e:
             undecided.append("extra checks: contract target missing: %s" % (e,))
+    if uni.bases:
+        from pyvc import structural as _st
+        try:
+            okh, det, nchk, hnotes = _st.class_hierarchy(uni)
+            extras.append(Extra("structural/every base declared in the sidecars (BASES) is an ancestor in the repository; "
+                                "hierarchies declared closed have no undeclared descendant (%d classes)" % nchk, okh, det))
+            for root, subs in sorted(hnotes.items()):
+                a = ("values typed as %s are assumed to be instances of the subclasses the sidecars declare; repository "
+                     "subclasses not declared (outside what these contracts construct or inspect): %s"
+                     % (root, ", ".join(sorted(set(subs)))))
+                if a not in uni.assumptions:
+                    uni.assumptions.append(a)
+        except extract.Missing as e:
+            undecided.append("class hierarchy: %s" % (e,))
     bounded = None
     if hasattr(mod, "bounded"):
         bounded = mod.bounded(uni, tier, seed)     # dict(evaluations, distinct_nontrivial, rule, samples, failures=[...])
@@ -163,6 +200,13 @@ def run(prop, tier="quick", seed=0):
                 wit_cache[ob.func] = wit
         seen_base[base] = []
         ob.other_paths = seen_base[base]
+        fp = next((f["source_hash"] + ":" + sdig for f in functions if f["function"] == ob.func), None)
+        if wit is None and ob.status == "unknown" and fp is not None and baseline.get(ob.func) == fp:
+            # the verification condition is the one that was discharged on the clean tree (same function source, same
+            # sidecars): a solver that does not decide it now is instability, never a violation
+            undecided.append("%s: not decided by any solver on UNCHANGED source and contracts (discharged at baseline %s)"
+                             % (ob.name, fp))
+            continue
         k = is_known(ob.name, ob.detail or "")
         if k is not None:
             known_lines.append("KNOWN-FINDING: property=%s %s" % (prop, k["what"]))
@@ -240,9 +284,28 @@ def run(prop, tier="quick", seed=0):
         coverage["exhaustive"] = bool(bounded.get("exhaustive", False))
     if hasattr(mod, "coverage_extra"):
         coverage.update(mod.coverage_extra())
+    # contracts relied on at call sites: verified here, verified under another property, or assumed
+    used = getattr(uni, "used_contracts", {})
+    verified_here = {f["function"] for f in functions}
+    assumed_calls, naming = [], []
+    for key in sorted(used):
+        con = uni.contracts.get(key, {})
+        callers = ", ".join(sorted(used[key]))
+        if con.get("naming"):
+            naming.append("naming (assumed at call sites of %s): the result of the deterministic function %s is named by "
+                          "uninterpreted functions of its arguments: %s" % (callers, key, "; ".join(
+                              (e[1] if isinstance(e, tuple) else e) for e in con["naming"])))
+        if key in verified_here and not con.get("assumed_body"):
+            continue
+        kind_ = ("observer (heap-independent function of its arguments)" if con.get("observer") else
+                 "assumed contract" if (con.get("assumed") or con.get("assumed_body")) else
+                 "contract not verified in THIS run (an obligation of another property's run if listed there, else assumed)")
+        ens = "; ".join((e[1] if isinstance(e, tuple) else e) for e in con.get("ensures", []))[:400]
+        assumed_calls.append("%s: %s, used by %s%s" % (kind_, key, callers, (" — ensures: " + ens) if ens else ""))
+    coverage["contracts_assumed_at_call_sites"] = assumed_calls
     ev = {
         "property_id": prop, "tier": tier, "seed": seed, "level": level, "coverage": coverage,
-        "assumptions": list(uni.assumptions) + list(getattr(mod, "ASSUMPTIONS", [])),
+        "assumptions": list(uni.assumptions) + list(getattr(mod, "ASSUMPTIONS", [])) + naming + assumed_calls,
         "wall_s": round(time.time() - t0, 2),
         "violations": len(violations),
     }
@@ -300,6 +363,11 @@ def run(prop, tier="quick", seed=0):
         for u in undecided:
             print("UNDECIDED: " + u)
         return 2
+    if write_baseline and not vacuous:
+        allb = load_baseline()
+        allb[prop] = {f["function"]: f["source_hash"] + ":" + sdig for f in functions}
+        with open(os.path.join(VERIF, "baseline.json"), "w") as f:
+            json.dump(allb, f, indent=1, sort_keys=True)
     return 0
 
 
@@ -350,6 +418,8 @@ def main(argv=None):
     ap.add_argument("prop")
     ap.add_argument("--tier", default=os.environ.get("VERIF_TIER", "quick"))
     ap.add_argument("--replay")
+    ap.add_argument("--write-baseline", action="store_true",
+                    help="after a clean run on the clean tree: record function-source/sidecar fingerprints of what was discharged")
     a = ap.parse_args(argv)
     seed = int(os.environ.get("VERIF_SEED", "0") or 0)
     if a.replay:
@@ -360,7 +430,7 @@ def main(argv=None):
             return mod.replay(rec)
         return 0
     try:
-        return run(a.prop, a.tier, seed)
+        return run(a.prop, a.tier, seed, a.write_baseline)
     except SystemExit:
         raise
     except Exception:      # noqa
